@@ -59,6 +59,8 @@ fn classes(trace: &[FsOp], a: &Path, b: &Path) -> (Vec<u64>, Vec<String>) {
   for op in trace {
     for p in paths_of(op) {
       // a DirFsync names the directory itself
+      // indexes may be created and opened through relative paths: classify the absolute location
+      let p = if p.is_relative() { std::env::current_dir().unwrap().join(&p) } else { p };
       let c = if p.starts_with(b) { 1 } else if p.starts_with(a) { 0 } else { 2 };
       if c != 1 {
         foreign.push(format!("{op:?}").chars().take(160).collect());
@@ -82,9 +84,20 @@ fn main() {
   let mut meta = Vec::new();
   let mut dist: BTreeMap<String, usize> = BTreeMap::new();
   for case_no in 0..args.n {
+    std::env::set_current_dir("/").ok();
     let scratch = slv::fixtures::scratch();
-    let a = scratch.path().join("orig");
-    let b = scratch.path().join("copy");
+    // one case in three creates and opens the indexes through RELATIVE paths (the manifest then
+    // records relative segment paths); a_abs / b_abs are the same locations, absolute
+    let relative = rng.chance(1, 3);
+    let a_abs = scratch.path().join("orig");
+    let b_abs = scratch.path().join("copy");
+    let (a, b) = if relative {
+      std::env::set_current_dir(scratch.path()).unwrap();
+      (PathBuf::from("orig"), PathBuf::from("copy"))
+    } else {
+      (a_abs.clone(), b_abs.clone())
+    };
+    *dist.entry(if relative { "relative_paths".to_string() } else { "absolute_paths".to_string() }).or_insert(0) += 1;
     let mut expected: BTreeMap<String, i64> = BTreeMap::new();
     let mut ver = 0u64;
     {
@@ -119,7 +132,8 @@ fn main() {
           let leaf = p.file_name().unwrap().to_string_lossy().to_string();
           let n = leaf_ids.len() as u64 + 10;
           let id = *leaf_ids.entry(leaf).or_insert(n);
-          let c = if p.starts_with(&b) { 1 } else if p.starts_with(&a) { 0 } else { 2 };
+          let pa = if p.is_relative() { std::env::current_dir().unwrap().join(p) } else { p.to_path_buf() };
+          let c = if pa.starts_with(&b_abs) { 1 } else if pa.starts_with(&a_abs) { 0 } else { 2 };
           files.push(coq::pair(&c.to_string(), &id.to_string()));
         }
       }
@@ -140,7 +154,7 @@ fn main() {
       2 => std::fs::remove_dir_all(&a).unwrap(),
       _ => {}
     }
-    let before = dir_digest(&a);
+    let before = dir_digest(&a_abs);
     let mut roots: Vec<String> = Vec::new();
     let mut ops: Vec<String> = Vec::new();
     let mut ops_json: Vec<String> = Vec::new();
@@ -151,7 +165,7 @@ fn main() {
     let mut o = slv::fixtures::opts(&b, StorageType::Filesystem);
     o.create_if_missing = false;
     let idx = Index::open(o);
-    let (cl, f) = classes(&verif_trace::take(), &a, &b);
+    let (cl, f) = classes(&verif_trace::take(), &a_abs, &b_abs);
     roots.push(coq::nlist(&cl));
     foreign_all.extend(f);
     let mut fresh = 100u64;
@@ -214,14 +228,14 @@ fn main() {
             results_ok = false;
             errors.push(format!("{}: {e}", ops_json.last().unwrap()));
           }
-          let (cl, f) = classes(&verif_trace::take(), &a, &b);
+          let (cl, f) = classes(&verif_trace::take(), &a_abs, &b_abs);
           roots.push(coq::nlist(&cl));
           foreign_all.extend(f);
         }
       }
     }
     let _ = verif_trace::take();
-    let after = dir_digest(&a);
+    let after = dir_digest(&a_abs);
     let untouched = before == after;
     let obs = format!(
       "{{| roots := {}; results_ok := {}; original_untouched := {} |}}",
@@ -230,7 +244,7 @@ fn main() {
     cases.push(format!("({}, {}, {})", coq::list(&stored), coq::list(&ops), obs));
     foreign_all.truncate(5);
     meta.push(serde_json::json!({
-      "case": case_no, "original": vname, "segments_in_copy": stored.len(), "ops": ops_json,
+      "case": case_no, "original": vname, "relative_paths": relative, "segments_in_copy": stored.len(), "ops": ops_json,
       "results_ok": results_ok, "original_untouched": untouched, "errors": errors,
       "paths_outside_copy": foreign_all, "nt": stored.len() >= 1,
     }));
